@@ -53,6 +53,8 @@ func vh06Corpus() []vhloopScn {
 		f    vhloopFrame
 	}{
 		{"read", vhloopReadF(1, 1, 1)},
+		{"write", vhloopFrame{K: "write", Tag: 1, Fid: 1, Gate: 2}},
+		{"fsync", vhloopFrame{K: "fsync", Tag: 1, Fid: 1, Gate: vhloopFileBase + 1}},
 		{"getattr", vhloopOnFile("getattr", 1, 1, 1, true)},
 		{"walk", vhloopOnFile("clone", 1, 1, 1, true)},
 		{"close-clunk", vhloopClunkF(1, 1, 1, true)},
